@@ -573,6 +573,7 @@ done:
 
 long double iw_strtold(const char *v, iwrc *rcp) {
   char *ep = 0;
+  errno = 0; // the check below must see only what this conversion sets
   long double ret = strtold(v, &ep);
   if (*ep != '\0' || errno == ERANGE) {
     *rcp = IW_ERROR_INVALID_ARGS;
@@ -583,6 +584,7 @@ long double iw_strtold(const char *v, iwrc *rcp) {
 
 double iw_strtod(const char *v, iwrc *rcp) {
   char *ep = 0;
+  errno = 0; // the check below must see only what this conversion sets
   double ret = strtod(v, &ep);
   if (*ep != '\0' || errno == ERANGE) {
     *rcp = IW_ERROR_INVALID_ARGS;
@@ -593,6 +595,7 @@ double iw_strtod(const char *v, iwrc *rcp) {
 
 long int iw_strtol(const char *v, int base, iwrc *rcp) {
   char *ep = 0;
+  errno = 0; // the check below must see only what this conversion sets
   long int ret = strtol(v, &ep, base);
   if (*ep != '\0' || errno == ERANGE) {
     *rcp = IW_ERROR_INVALID_ARGS;
@@ -603,6 +606,7 @@ long int iw_strtol(const char *v, int base, iwrc *rcp) {
 
 long long iw_strtoll(const char *v, int base, iwrc *rcp) {
   char *ep = 0;
+  errno = 0; // the check below must see only what this conversion sets
   long long ret = strtoll(v, &ep, base);
   if (*ep != '\0' || errno == ERANGE) {
     *rcp = IW_ERROR_INVALID_ARGS;
@@ -613,6 +617,7 @@ long long iw_strtoll(const char *v, int base, iwrc *rcp) {
 
 long int iw_strtoul(const char *v, int base, iwrc *rcp) {
   char *ep = 0;
+  errno = 0; // the check below must see only what this conversion sets
   long int ret = strtoul(v, &ep, base);
   if (*ep != '\0' || errno == ERANGE) {
     *rcp = IW_ERROR_INVALID_ARGS;
@@ -623,6 +628,7 @@ long int iw_strtoul(const char *v, int base, iwrc *rcp) {
 
 long long iw_strtoull(const char *v, int base, iwrc *rcp) {
   char *ep = 0;
+  errno = 0; // the check below must see only what this conversion sets
   long long ret = strtoull(v, &ep, base);
   if (*ep != '\0' || errno == ERANGE) {
     *rcp = IW_ERROR_INVALID_ARGS;
